@@ -291,3 +291,25 @@ func (c *Ctx) ClosureWithCall(parent *ssa.Function, pat string) *ssa.Function {
 	c.touch(found[0])
 	return found[0]
 }
+
+// PhiLeafEdges: for a value that is a (nested) phi, the control-flow edges along which the incoming
+// leaf value has a descriptor matching pat — "the paths on which the value is pat".
+func (c *Ctx) PhiLeafEdges(v ssa.Value, pat string) []Edge {
+	var out []Edge
+	seen := map[ssa.Value]bool{}
+	var walk func(x ssa.Value, e *Edge)
+	walk = func(x ssa.Value, e *Edge) {
+		if phi, ok := x.(*ssa.Phi); ok && !seen[x] {
+			seen[x] = true
+			for i, ev := range phi.Edges {
+				walk(ev, &Edge{phi.Block().Preds[i], phi.Block()})
+			}
+			return
+		}
+		if e != nil && P(pat).Match(c.D(x)) {
+			out = append(out, *e)
+		}
+	}
+	walk(v, nil)
+	return out
+}
